@@ -70,6 +70,11 @@ func (p *Prog) verifyFunction(fn *ssa.Function, con *Contract) (res *FnResult) {
 				}
 			}
 			if allForbid {
+				// recorded as a (structurally decided) obligation: the forbidden call does not occur
+				for _, h := range con.AtCalls[k] {
+					res.Obls = append(res.Obls, &Obligation{Name: res.Fn + "#forbid:" + k + ":" + clauseLabel(h.C, 0), Kind: "forbid", Fn: res.Fn, Props: clauseProps(h.C, con.Props), Solver: "structural", Result: "unsat",
+						Src: "no call of " + strings.TrimSuffix(k, "#*") + " occurs in the function (" + h.C.Label + ")"})
+				}
 				continue
 			}
 			var props []string
